@@ -312,18 +312,18 @@ fn reference_line(line: &[u8]) -> Option<String> {
     if line[0] == b';' {
         return Some(format!("c:{}", hex(&line[1..])));
     }
-    // the part before a trailing comment is ASCII tokens separated by single spaces
+    // tokens separated by single spaces; a token that starts with ';' starts the comment
     let mut toks: Vec<&[u8]> = vec![];
     let mut i = 0;
-    let mut comment: Option<&[u8]> = None;
+    let mut comment: Option<Vec<u8>> = None;
     loop {
-        if i < line.len() && line[i] == b';' && !toks.is_empty() {
-            comment = Some(&line[i + 1..]);
+        if line[i] == b';' {
+            comment = Some(line[i + 1..].to_vec());
             break;
         }
         let j = line[i..].iter().position(|b| *b == b' ').map(|p| i + p).unwrap_or(line.len());
         if j == i {
-            return None; // double space / trailing space
+            return None; // double space
         }
         toks.push(&line[i..j]);
         if j == line.len() {
@@ -334,42 +334,31 @@ fn reference_line(line: &[u8]) -> Option<String> {
             return None; // trailing space
         }
     }
-    let s = |t: &[u8]| std::str::from_utf8(t).ok().map(|x| x.to_string());
-    let mut it = toks.iter();
-    let id = pos_numeral(&s(it.next()?)?)?;
-    let kw = s(it.next()?)?;
-    let mut num = |pos: bool| -> Option<String> {
-        let t = s(it.next()?)?;
-        if pos { pos_numeral(&t) } else { nonneg_numeral(&t) }
-    };
-    let variant = match kw.as_str() {
-        "sort" => {
-            let k = s(toks.get(2)?)?;
-            let _ = num(false); // skip the sort keyword slot (not a numeral)
-            match k.as_str() {
-                "bitvec" => format!("sort.bitvec.{}", num(true)?),
-                "array" => format!("sort.array.{}.{}", num(true)?, num(true)?),
-                _ => return None,
-            }
-        }
-        "init" | "next" => {
-            let (sort, state, value) = (num(true)?, num(true)?, num(true)?);
-            format!("{}.{}.{}.{}", kw, sort, state, value)
-        }
-        "bad" | "constraint" | "fair" | "output" => format!("out.{}.{}", kw, num(true)?),
+    let text = |k: usize| -> Option<&str> { std::str::from_utf8(toks.get(k)?).ok() };
+    let pos = |k: usize| -> Option<String> { pos_numeral(text(k)?) };
+    let nonneg = |k: usize| -> Option<String> { nonneg_numeral(text(k)?) };
+    let id = pos(0)?;
+    let kw = text(1)?;
+    // (variant text, number of tokens used)
+    let (variant, used): (String, usize) = match kw {
+        "sort" => match text(2)? {
+            "bitvec" => (format!("sort.bitvec.{}", pos(3)?), 4),
+            "array" => (format!("sort.array.{}.{}", pos(3)?, pos(4)?), 5),
+            _ => return None,
+        },
+        "init" | "next" => (format!("{}.{}.{}.{}", kw, pos(2)?, pos(3)?, pos(4)?), 5),
+        "bad" | "constraint" | "fair" | "output" => (format!("out.{}.{}", kw, pos(2)?), 3),
         "justice" => {
-            let n: u128 = num(true)?.parse().ok()?;
-            let mut v = vec![];
-            for _ in 0..n {
-                v.push(num(true)?);
+            let n: usize = pos(2)?.parse::<u128>().ok()?.min(1 << 40) as usize;
+            if n > toks.len() {
+                return None;
             }
-            format!("justice.{}", v.join(","))
+            let v: Vec<String> = (0..n).map(|k| pos(3 + k)).collect::<Option<Vec<_>>>()?;
+            (format!("justice.{}", v.join(",")), 3 + n)
         }
         "const" | "constd" | "consth" => {
-            let sort = num(true)?;
-            drop(num);
-            let c = *it.next()?;
-            let ok = match kw.as_str() {
+            let c = *toks.get(3)?;
+            let ok = match kw {
                 "const" => c.iter().all(|b| matches!(b, b'0' | b'1')),
                 "consth" => c.iter().all(|b| b.is_ascii_hexdigit()),
                 // an optional minus sign, then decimal digits ("-" alone is what the crate's
@@ -379,47 +368,22 @@ fn reference_line(line: &[u8]) -> Option<String> {
             if !ok {
                 return None;
             }
-            let v = format!("val.{}.{}.{}", sort, kw, hex(c));
-            return finish(id, v, it, comment);
+            (format!("val.{}.{}.{}", pos(2)?, kw, hex(c)), 4)
         }
-        "one" | "ones" | "zero" | "input" | "state" => format!("val.{}.{}", num(true)?, kw),
-        "uext" | "sext" => {
-            let (sort, a, w) = (num(true)?, num(true)?, num(false)?);
-            format!("val.{}.op.{}.{}.{}", sort, kw, a, w)
-        }
-        "slice" => {
-            let (sort, a, u, l) = (num(true)?, num(true)?, num(false)?, num(false)?);
-            format!("val.{}.op.slice.{}.{}.{}", sort, a, u, l)
-        }
-        k if UNARY.contains(&k) => {
-            let (sort, a) = (num(true)?, num(true)?);
-            format!("val.{}.op.{}.{}", sort, kw, a)
-        }
-        k if BINARY.contains(&k) => {
-            let (sort, a, b) = (num(true)?, num(true)?, num(true)?);
-            format!("val.{}.op.{}.{}.{}", sort, kw, a, b)
-        }
-        "ite" | "write" => {
-            let (sort, a, b, c) = (num(true)?, num(true)?, num(true)?, num(true)?);
-            format!("val.{}.op.{}.{}.{}.{}", sort, kw, a, b, c)
-        }
+        "one" | "ones" | "zero" | "input" | "state" => (format!("val.{}.{}", pos(2)?, kw), 3),
+        "uext" | "sext" => (format!("val.{}.op.{}.{}.{}", pos(2)?, kw, pos(3)?, nonneg(4)?), 5),
+        "slice" => (format!("val.{}.op.slice.{}.{}.{}", pos(2)?, pos(3)?, nonneg(4)?, nonneg(5)?), 6),
+        k if UNARY.contains(&k) => (format!("val.{}.op.{}.{}", pos(2)?, kw, pos(3)?), 4),
+        k if BINARY.contains(&k) => (format!("val.{}.op.{}.{}.{}", pos(2)?, kw, pos(3)?, pos(4)?), 5),
+        "ite" | "write" => (format!("val.{}.op.{}.{}.{}.{}", pos(2)?, kw, pos(3)?, pos(4)?, pos(5)?), 6),
         _ => return None,
     };
-    drop(num);
-    finish(id, variant, it, comment)
-}
-
-fn finish(id: String, variant: String, mut it: std::slice::Iter<&[u8]>, comment: Option<&[u8]>) -> Option<String> {
-    let symbol = it.next().map(|s| s.to_vec());
-    if it.next().is_some() {
-        return None;
-    }
-    if let Some(s) = &symbol {
-        if s[0] == b';' {
-            return None;
-        }
-    }
-    Some(format!("n:{}:{}:{}:{}", id, variant, opt_hex(&symbol), opt_hex(&comment.map(|c| c.to_vec()))))
+    let symbol: Option<Vec<u8>> = match toks.len() - used.min(toks.len()) {
+        0 if toks.len() == used => None,
+        1 => Some(toks[used].to_vec()),
+        _ => return None,
+    };
+    Some(format!("n:{}:{}:{}:{}", id, variant, opt_hex(&symbol), opt_hex(&comment)))
 }
 
 /// The whole document: one entry per non-blank line, with the index of that line.
